@@ -1,5 +1,5 @@
 (* C10 — mutator and getter histories behave like a plain set/map model. *)
-From UL Require Import Bytes Subtags LangId Ext Likely Inst Ops LocaleInv OpsProofs InvProofs TablesData OpsInvProofs.
+From UL Require Import Bytes Subtags LangId Ext Likely Inst Ops LocaleInv AbstractLocale OpsProofs InvProofs TablesData OpsInvProofs RefineProofs.
 From Coq Require Import String.
 
 (* a call that returns an error (malformed key, value, attribute or tag) leaves the value unchanged *)
@@ -37,6 +37,24 @@ Example C10_ex : exists st, run the_tables locale_default
                  = [[bs "foo"%string]; [bs "bar"%string; bs "foo"%string]; [bs "bar"%string; bs "foo"%string]; [bs "bar"%string]].
 Proof. eexists. split; vm_compute; reflexivity. Qed.
 
+(* REFINEMENT: along every history of public operations, with arbitrary (valid, boundary, invalid)
+   arguments, from default() or any parsed value, the concrete machine - sorted vectors, key-sorted
+   maps, binary search, insertion positions - produces exactly the outputs of the reference machine
+   made of plain unordered sets, a multiset and maps (spec/AbstractLocale.v), and its state is always
+   the normal form (sets sorted, maps sorted by key) of the reference state: so every getter, is_empty,
+   has_*, to_string after every step is that of the reference *)
+Theorem C10_refines_step : forall a o, a_ok a ->
+  step the_tables (normalize a) o = Some (normalize (fst (astep the_tables a o)), snd (astep the_tables a o))
+  /\ a_ok (fst (astep the_tables a o)).
+Proof. exact (refine_step the_tables). Qed.
+Theorem C10_refines : forall ops l, loc_inv l = true ->
+  run the_tables l ops = Some (map (fun p => (normalize (fst p), snd p)) (arun the_tables (abstract l) ops)).
+Proof.
+  intros ops l H. destruct (normalize_abstract l H) as [E Hok]. rewrite <- E at 1. apply refine_run. exact Hok.
+Qed.
+
+Print Assumptions C10_refines_step.
+Print Assumptions C10_refines.
 Print Assumptions C10_inv.
 Print Assumptions C10_inv_history.
 Print Assumptions C10_no_unspec.
